@@ -197,6 +197,70 @@ fn one(ctx: &mut Ctx, t: &Transaction, muts: u64) {
     }
 }
 
+/// edit one class of NON-malleable content through the public mutators (they do not touch the cached metadata)
+fn flip<T: AsRef<[u8]> + From<[u8; 32]>>(x: &T) -> T { let mut a = [0u8; 32]; a.copy_from_slice(x.as_ref()); a[31] ^= 1; a.into() }
+
+fn edit(ctx: &mut Ctx, t: &mut Transaction, class: usize) -> &'static str {
+    use fuel_tx::field::{BlobId as _, BytecodeRoot as _, MintAmount as _, MintAssetId as _, MintGasPrice as _, Policies as _, Salt as _, Script as _, ScriptData as _, ScriptGasLimit as _, TxPointer as _, UpgradePurpose as _};
+    let r = &mut ctx.rng;
+    fn ch<T: Inputs + Outputs + fuel_tx::field::Policies>(x: &mut T, r: &mut crate::ctx::Rng, class: usize) -> &'static str {
+        match class {
+            0 => { let v = x.policies().get(fuel_tx::policies::PolicyType::Tip).unwrap_or(0) ^ (1 + r.below(1000)); x.policies_mut().set(fuel_tx::policies::PolicyType::Tip, Some(v)); "policy" }
+            1 => { let i = input(r); let n = x.inputs().len(); x.inputs_mut().insert(r.below(n as u64 + 1) as usize, i); "input-added" }
+            2 => {
+                // a non-malleable field of an existing input: coin / message amount, contract id
+                let n = x.inputs().len();
+                if n == 0 { x.inputs_mut().push(input(r)); return "input-added"; }
+                let j = r.below(n as u64) as usize;
+                match &mut x.inputs_mut()[j] {
+                    Input::CoinSigned(c) => c.amount ^= 1, Input::CoinPredicate(c) => c.amount ^= 1, Input::Contract(c) => c.contract_id = flip(&c.contract_id),
+                    Input::MessageCoinSigned(m) => m.amount ^= 1, Input::MessageCoinPredicate(m) => m.amount ^= 1,
+                    Input::MessageDataSigned(m) => m.amount ^= 1, Input::MessageDataPredicate(m) => m.amount ^= 1,
+                }
+                "input-field"
+            }
+            _ => { x.outputs_mut().push(Output::coin(b32(r).into(), r.word(), b32(r).into())); "output-added" }
+        }
+    }
+    match t {
+        Transaction::Mint(x) => match class % 4 { 0 => { *x.mint_amount_mut() ^= 1 + r.below(9); "mint-amount" } 1 => { *x.gas_price_mut() ^= 1; "mint-gas-price" }
+            2 => { let p = *x.tx_pointer(); *x.tx_pointer_mut() = fuel_tx::TxPointer::new((u32::from(p.block_height()) ^ 1).into(), p.tx_index()); "mint-tx-pointer" } _ => { let a = flip(x.mint_asset_id()); *x.mint_asset_id_mut() = a; "mint-asset" } },
+        Transaction::Script(x) => match class { 4 => { *x.script_gas_limit_mut() ^= 1; "body" } 5 => { x.script_mut().push(0x24); "body-script" } 6 => { x.script_data_mut().extend_from_slice(&[1, 2, 3]); "body-script-data" } c => ch(x, r, c % 4) },
+        Transaction::Create(x) => if class >= 4 { let a = flip(x.salt()); *x.salt_mut() = a; "body" } else { ch(x, r, class) },
+        Transaction::Upgrade(x) => if class >= 4 { let root = match x.upgrade_purpose() { UpgradePurpose::StateTransition { root } => flip(root), _ => b32(r).into() }; *x.upgrade_purpose_mut() = UpgradePurpose::StateTransition { root }; "body" } else { ch(x, r, class) },
+        Transaction::Upload(x) => if class >= 4 { let a = flip(x.bytecode_root()); *x.bytecode_root_mut() = a; "body" } else { ch(x, r, class) },
+        Transaction::Blob(x) => if class >= 4 { let a = flip(x.blob_id()); *x.blob_id_mut() = a; "body" } else { ch(x, r, class) },
+    }
+}
+
+/// precompute → edit non-malleable content (or only change the chain id) → precompute AGAIN on the same object: the cached id and
+/// `id()` must be the id of the current content under the second chain id (compared with a freshly decoded, cache-free copy and with
+/// the SHA-256 oracle) and differ from the id before the edit
+fn reprecompute(ctx: &mut Ctx, t: &Transaction, class: usize) {
+    let k = kind(t);
+    let c1 = ctx.rng.word();
+    let c2 = if class == 7 || ctx.rng.chance(1, 3) { c1 ^ (1u64 << ctx.rng.below(64)) } else { c1 };
+    let mut x = t.clone();
+    if x.precompute(&ChainId::new(c1)).is_err() { ctx.count(&format!("re.precompute1.err.{k}")); return; }
+    let id1 = x.id(&ChainId::new(c1));
+    let what = if class == 7 { "chain-only" } else { edit(ctx, &mut x, class) };
+    if x.precompute(&ChainId::new(c2)).is_err() { ctx.count(&format!("re.precompute2.err.{k}")); return; }
+    let bytes = x.to_bytes();
+    let fresh = match Transaction::from_bytes(&bytes) { Ok(f) => f, Err(_) => { ctx.count("re.undecodable"); return; } };
+    let expected = fresh.id(&ChainId::new(c2));
+    let mut pre = c2.to_be_bytes().to_vec(); pre.extend(by_hand(&fresh).to_bytes());
+    let req = format!("reid {c1} {c2} {k} {} | {}", text(t), text(&fresh));
+    let cached = x.cached_id();
+    ctx.emit(&req, &cached.map(|c| hex(&*c)).unwrap_or("none".into()));
+    ctx.count(&format!("re.{what}.{k}"));
+    if cached != Some(expected) || x.id(&ChainId::new(c2)) != expected {
+        ctx.oracle_fail(&format!("stale-cached-id-after-second-precompute-{k}-{what}"), &req,
+            &format!("after precompute, edit ({what}), precompute: cached {:?}, id() {}, but the current content's id is {}", cached.map(|c| hex(&*c)), hex(&*x.id(&ChainId::new(c2))), hex(&*expected)));
+    }
+    if sha(&pre) != expected.to_vec() { ctx.oracle_fail(&format!("id-ne-sha256-of-prepared-{k}"), &req, "fresh copy's id is not SHA-256(chain ++ prepared bytes)"); }
+    if expected == id1 { ctx.oracle_fail(&format!("id-unchanged-{k}-{what}"), &req, "the id did not change although non-malleable content / the chain id did"); }
+}
+
 fn build(ctx: &mut Ctx, k: usize, pol: Policies, ins: Vec<Input>, outs: Vec<Output>, mut wits: Vec<Witness>, good: bool) -> Transaction {
     let r = &mut ctx.rng;
     match k {
@@ -230,8 +294,10 @@ pub fn run(ctx: &mut Ctx) {
         let pol = policies(&mut ctx.rng, 0b111111);
         let t = build(ctx, k, pol, ins, outs, wits, true);
         one(ctx, &t, 40);
-        let t = build(ctx, k, Policies::new(), vec![], vec![], vec![], true);
-        one(ctx, &t, 10);
+        let t2 = build(ctx, k, Policies::new(), vec![], vec![], vec![], true);
+        one(ctx, &t2, 10);
+        // a second precompute on an object that already carries metadata, for every class of edit
+        for class in 0..8 { reprecompute(ctx, &t, class); reprecompute(ctx, &t2, class); }
     }
     // 1. random compositions
     for _ in 0..ctx.n(500, 15_000) {
@@ -243,5 +309,7 @@ pub fn run(ctx: &mut Ctx) {
         let t = build(ctx, k, pol, ins, outs, wits, true);
         let m = if ctx.thorough() { 12 } else { 8 };
         one(ctx, &t, m);
+        let class = ctx.rng.below(8) as usize;
+        reprecompute(ctx, &t, class);
     }
 }
